@@ -1219,6 +1219,7 @@ public:
 	uint16_t GetBlockTypeIndex(const uint32_t blockId) const;
 
 	uint32_t GetBlockSize(const uint32_t blockId) const;
+	void SetBlockSize(const uint32_t blockId, const uint32_t blockSize);
 	std::streampos GetBlockSizeStreamPos() const;
 	void ResetBlockSizeStreamPos();
 
